@@ -84,6 +84,12 @@ CYCLES = {
     "spawn-bad-arg-after-pipe": "(do (protect (os/spawn [\"sim-child\" \"x0\"] :p {:in :pipe :out 42})) (protect (os/spawn [\"sim-child\" \"x0\"] :p {:out :pipe :cd 5})))",
     "give-unmarshallable-to-thread-chan": "(let [c (ev/thread-chan 2)] (protect (ev/give c (parser/new))) (ev/give c 1) (ev/take c))",
     "connect-fails-then-pipe": "(do (protect (net/connect :unix (string \"@jsim-c20-nobody2-\" (os/getpid)))) (let [[r w] (os/pipe)] (gccollect) (ev/write w \"x\") (ev/read r 1) (:close r) (:close w)))",
+    "close-with-reader-and-writer-parked": "(let [name (string \"@jsim-c20-rw-\" (os/getpid)) s (net/listen :unix name) c (net/connect :unix name) a (net/accept s)] "
+                                           "(ev/spawn (protect (ev/read a 10))) (ev/spawn (protect (ev/write a (string/repeat \"x\" 400000)))) "
+                                           "(ev/sleep 0.001) (:close a) (ev/sleep 0.001) (:close c) (:close s))",
+    "thread-chan-cancelled-waiter-then-close": "(let [c (ev/thread-chan 0) f (ev/spawn (protect (ev/take c)))] (ev/sleep 0) (ev/cancel f :stop) (ev/sleep 0) (ev/chan-close c))",
+    "thread-chan-cancelled-giver-then-close": "(let [c (ev/thread-chan 0) f (ev/spawn (protect (ev/give c 1)))] (ev/sleep 0) (ev/cancel f :stop) (ev/sleep 0) (ev/chan-close c))",
+    "chan-cancelled-waiter-then-close": "(let [c (ev/chan 0) f (ev/spawn (protect (ev/take c)))] (ev/sleep 0) (ev/cancel f :stop) (ev/sleep 0) (ev/chan-close c))",
     "to-file-less": "(let [[r w] (os/pipe)] (ev/write w (string/repeat \"x\" 5000)) (:close w) (ev/read r :all) (:close r))",
 }
 # counters that must not grow at all between N1 and N2 cycles, and those with a constant allowance
@@ -126,7 +132,7 @@ class C20(Driver):
                 st = {"k": k, "ms": r.choice([0, 1, 2, 3, 5, 8, 13])}
                 if r.random() < 0.04:
                     # many threads finish while this thread is not in its loop: their completions arrive in one burst
-                    st = {"k": "thread-burst", "ms": r.choice([1, 3]), "n": r.choice([17, 33, 65, 70, 129, 200, 257, 300])}
+                    st = {"k": "thread-burst", "ms": r.choice([1, 3]), "n": r.choice([17, 33, 65, 70, 129, 200])}
                 if k == "proc":
                     st["code"] = r.choice([0, 1, 9])
                 if k in ("chan-pair", "pipe-pair"):
